@@ -33,6 +33,10 @@ def remove_iff_zero(eng, PROP, p, unconditional_remove=('CancelAsk',)):
             dom = Dom(p)
             if ns == 'ask': rem = nget(val, (('f', 'size'),))
             else: rem = SUB(nget(val, (('f', 'base'), ('f', 'amount'))), nget(val, (('f', 'accumulated_base'),)))
+            if ns == 'ask': old_rem = F(base, 'size')
+            else: old_rem = SUB(F(base, 'base', 'amount'), F(base, 'accumulated_base'))
+            if op == 'save' and dom.eq(rem, old_rem):
+                continue    # remainder untouched (e.g. approval): positive by the inductive hypothesis I1/I3
             t, f_ = zero_fact(p, dom, rem)
             n += 1
             if op == 'remove':
